@@ -7,22 +7,23 @@ Open Scope Z_scope.
 (* ---------- checkAcceptError ---------- *)
 Lemma accept_stops_iff : forall e ctx_done,
   fst (fst (check_accept_error e ctx_done)) = false <->
-  (e = AccListenerClosed \/ (e = AccDeadlineOrCanceled /\ ctx_done = true)).
+  (e = AccListenerClosed \/ ((e = AccDeadline \/ e = AccCanceled) /\ ctx_done = true)).
 Proof.
   intros e d; destruct e, d; cbn; split; intro H; try discriminate; auto;
-    destruct H as [H | [H1 H2]]; try discriminate; auto.
+    destruct H as [H | [[H1|H1] H2]]; try discriminate; auto.
 Qed.
 
 (* the accept loop never stops on nil / other errors while the context is live *)
 Lemma accept_loop_continues : forall script calls served reported,
-  (forall e d, In (e, d) script -> e <> AccListenerClosed /\ (e = AccDeadlineOrCanceled -> d = false)) ->
+  (forall e d, In (e, d) script -> e <> AccListenerClosed /\ (e = AccDeadline \/ e = AccCanceled -> d = false)) ->
   fst (fst (accept_loop script calls served reported)) = None.
 Proof.
   induction script as [|[e d] r IH]; intros calls served reported H; cbn [accept_loop]; [reflexivity|].
   destruct (H e d (or_introl eq_refl)) as [H1 H2].
   destruct e; cbn; try (apply IH; intros; apply H; right; assumption).
   - congruence.
-  - rewrite (H2 eq_refl). cbn. apply IH; intros; apply H; right; assumption.
+  - rewrite (H2 (or_introl eq_refl)). cbn. apply IH; intros; apply H; right; assumption.
+  - rewrite (H2 (or_intror eq_refl)). cbn. apply IH; intros; apply H; right; assumption.
 Qed.
 
 (* ---------- keys ---------- *)
